@@ -105,6 +105,65 @@ def _limits(mem_kb):
                 pass
     return f
 
+def _cpu_ticks(pid):
+    try:
+        f = open("/proc/%d/stat" % pid).read().rsplit(")", 1)[1].split()
+        return int(f[11]) + int(f[12])
+    except Exception:
+        return None
+
+def _run_watched(exe, inp, timeout, mem_kb, stall=90):
+    """run the executable on the input; returns (stdout text, gave_up). Gives up at the wall-clock timeout, or when the
+    process has been alive without consuming any CPU time and without producing output for `stall` seconds (the Lean
+    runtime's stack-overflow handler can deadlock instead of exiting: such a process would otherwise sit until the timeout)"""
+    import threading
+    p = subprocess.Popen([exe], stdin=subprocess.PIPE, stdout=subprocess.PIPE, stderr=subprocess.DEVNULL, preexec_fn=_limits(mem_kb))
+    chunks = []
+    def feed():
+        try:
+            p.stdin.write(inp.encode()); p.stdin.close()
+        except Exception:
+            pass
+    def drain():
+        try:
+            while True:
+                b = p.stdout.read1(1 << 16)
+                if not b:
+                    break
+                chunks.append(b)
+        except Exception:
+            pass
+    tf = threading.Thread(target=feed, daemon=True); td = threading.Thread(target=drain, daemon=True)
+    tf.start(); td.start()
+    t0 = time.time()
+    last_ticks, last_len, last_change = None, -1, time.time()
+    gave_up = False
+    while True:
+        if p.poll() is not None:
+            break
+        now = time.time()
+        if now - t0 > timeout:
+            gave_up = True
+            break
+        ticks, ln = _cpu_ticks(p.pid), len(chunks)
+        if ticks != last_ticks or ln != last_len:
+            last_ticks, last_len, last_change = ticks, ln, now
+        elif now - last_change > stall:
+            gave_up = True
+            break
+        time.sleep(0.05 if now - t0 < 2 else 0.5)
+    if gave_up:
+        try:
+            p.kill()
+        except Exception:
+            pass
+    try:
+        p.wait(timeout=30)
+    except Exception:
+        pass
+    td.join(timeout=30)
+    return b"".join(chunks).decode(errors="replace"), gave_up
+
 def run_lines(exe, lines, timeout=600, mem_kb=8 * 1024 * 1024, per_line_timeout=None):
     """Feed request lines to a line-protocol executable; return one answer per line.
     If the process dies or times out, the line it was working on is answered `died` / `timeout`
@@ -115,24 +174,13 @@ def run_lines(exe, lines, timeout=600, mem_kb=8 * 1024 * 1024, per_line_timeout=
     while todo:
         inp = "\n".join(todo) + "\n"
         t0 = time.time()
-        try:
-            p = subprocess.run([exe], input=inp, stdout=subprocess.PIPE, stderr=subprocess.PIPE, text=True,
-                               timeout=timeout, preexec_fn=_limits(mem_kb), errors="replace")
-            out = p.stdout.split("\n")
-            if out and out[-1] == "":
-                out.pop()
-            timed_out = False
-        except subprocess.TimeoutExpired as e:
-            raw = e.stdout or b""
-            if isinstance(raw, bytes):
-                raw = raw.decode(errors="replace")
-            out = raw.split("\n")
-            if out and out[-1] == "":
-                out.pop()
-            # a partial last line is dropped
-            if raw and not raw.endswith("\n") and out:
-                out.pop()
-            timed_out = True
+        raw, timed_out = _run_watched(exe, inp, timeout, mem_kb)
+        out = raw.split("\n")
+        if out and out[-1] == "":
+            out.pop()
+        # a partial last line is dropped
+        if raw and not raw.endswith("\n") and out:
+            out.pop()
         got = out[:len(todo)]
         answers.extend(got)
         if len(got) >= len(todo):
